@@ -62,6 +62,17 @@ var fusionBoolCtx = []string{
 	"r = b2i(E) + b2i(c || E)",
 	"for i := 0; i < 2; i++ {\n\tif E {\n\t\tcontinue\n\t}\n\tr++\n}",
 	"for i := 0; i < 2; i++ {\n\tif c && E {\n\t\tbreak\n\t}\n\tr++\n}",
+	// nested short-circuit operators: the fusible operand is the LEFT operand of the inner one
+	"if c || E && c2 {\n\tr = 1\n} else {\n\tr = 2\n}",
+	"if c && (E || c2) {\n\tr = 1\n} else {\n\tr = 2\n}",
+	"if c || (E || c2) {\n\tr = 1\n}",
+	"v := c || E && c2\nr = b2i(!v)",
+	"r = b2i(!(c || E && c2)) + b2i(c && (E || c2) == c2)",
+	"for r < 3 && (c || E && c2) {\n\tr++\n}",
+	"for c || !E {\n\tr++\n\tif r > 2 {\n\t\tbreak\n\t}\n}",
+	"for r < 2 && !E {\n\tr++\n}",
+	"if !(c && !E) {\n\tr = 1\n}",
+	"switch a {\ncase 1:\ncase 2:\n\tr = 2\ndefault:\n\tr = 3\n}\nif E {\n}",
 }
 
 var fusionIntCtx = []string{
